@@ -2,6 +2,7 @@ package roverif
 
 import (
 	"fmt"
+	"strings"
 
 	"github.com/samber/ro"
 )
@@ -14,7 +15,7 @@ func coldDeterministic(d *StageDef) bool {
 func init() {
 	Register(&Family{
 		Name:   "C12.resub",
-		Props:  []string{"C12"},
+		Props:  []string{"C12", "C07"},
 		Weight: 5,
 		Gen: func(g *Gen) *Scn {
 			sc := &Scn{Family: "C12.resub"}
@@ -27,6 +28,7 @@ func init() {
 			})
 			sc.Sub = "sequential"
 			sc.SetInt("k", g.Range(2, 4))
+			sc.SetInt("vary", g.PickInt(0, 0, 1, 2))
 			sc.SetInt("seqmode", 1)
 			sc.SetInt("raw", g.Intn(2))
 			return sc
@@ -120,6 +122,7 @@ func buildPipelineFrom(e *Env, sc *Scn) (ro.Observable[int], []*Src) {
 }
 
 func runC12(e *Env) {
+	defer e.CheckHeld("C12")
 	sc := e.Sc
 	// reference: first subscription of a freshly built identical pipeline
 	fresh, fsrcs := buildPipelineFrom(e, sc)
@@ -136,6 +139,30 @@ func runC12(e *Env) {
 	for i, s := range fsrcs {
 		wantSubs[i] = s.Subs
 	}
+	// "vary": from its second subscription on the main source plays another script (nothing but the
+	// terminal, or other values): what a subscription delivers depends on what its own source run emits,
+	// never on what an earlier subscription saw. Reference: a fresh pipeline whose source plays that script.
+	variant := c12Variant(sc)
+	wantVar, wantSubsVar := want, wantSubs
+	if variant != nil && sc.Sub == "sequential" {
+		vsc := *sc
+		vsc.Sources = append([]SrcSpec(nil), sc.Sources...)
+		vsc.Sources[0].Script = variant
+		fresh2, f2srcs := buildPipelineFrom(e, &vsc)
+		f2rec, _ := collectTrace(e, fresh2, "fresh-variant")
+		if e.K.Capped() {
+			return
+		}
+		if e.unterminated {
+			e.Probe("unterminated-pipeline")
+			return
+		}
+		wantVar = f2rec.Trace()
+		wantSubsVar = make([]int, len(f2srcs))
+		for i, s := range f2srcs {
+			wantSubsVar[i] = s.Subs
+		}
+	}
 	p, srcs := buildPipelineFrom(e, sc)
 	for i, s := range srcs {
 		if s.Subs != 0 {
@@ -145,6 +172,12 @@ func runC12(e *Env) {
 	k := sc.Int("k", 2)
 	if sc.Sub == "sequential" {
 		for n := 0; n < k; n++ {
+			w, ws, what := want, wantSubs, "a first subscription of a freshly built one"
+			if n > 0 && variant != nil {
+				// every later run of the main source plays the variant
+				srcs[0].Attempts = [][]Step{variant}
+				w, ws, what = wantVar, wantSubsVar, fmt.Sprintf("(the source now playing [%s]) a first subscription of a freshly built one", traceN(scriptToN(variant)))
+			}
 			before := make([]int, len(srcs))
 			for i, s := range srcs {
 				before[i] = s.Subs
@@ -153,12 +186,16 @@ func runC12(e *Env) {
 			if e.K.Capped() {
 				return
 			}
-			if rec.Trace() != want {
-				c12Violate(e, "resubscription-differs", fmt.Sprintf("subscription #%d of the same pipeline delivered [%s]; a first subscription of a freshly built one delivers [%s]", n+1, rec.Trace(), want))
+			if rec.Trace() != w {
+				if strings.Contains(w, "E(") && !strings.Contains(rec.Trace(), "E(") {
+					// C07: the failure the fresh pipeline reports never reached this subscriber
+					e.Violate("C07", "error-lost-on-later-subscription", fmt.Sprintf("subscription #%d of the same pipeline delivered [%s]; %s ends with the error: [%s]", n+1, rec.Trace(), what, w))
+				}
+				c12Violate(e, "resubscription-differs", fmt.Sprintf("subscription #%d of the same pipeline delivered [%s]; %s delivers [%s]", n+1, rec.Trace(), what, w))
 			}
 			for i, s := range srcs {
-				if s.Subs-before[i] != wantSubs[i] {
-					c12Violate(e, "source-subscribe-count", fmt.Sprintf("subscription #%d subscribed source %d %d times; the fresh pipeline subscribed it %d times", n+1, i, s.Subs-before[i], wantSubs[i]))
+				if s.Subs-before[i] != ws[i] {
+					c12Violate(e, "source-subscribe-count", fmt.Sprintf("subscription #%d subscribed source %d %d times; the fresh pipeline subscribed it %d times", n+1, i, s.Subs-before[i], ws[i]))
 				}
 			}
 		}
@@ -189,6 +226,7 @@ func runC12(e *Env) {
 var perms3 = [][]int{{0, 1, 2}, {0, 2, 1}, {1, 0, 2}, {1, 2, 0}, {2, 0, 1}, {2, 1, 0}}
 
 func runC12OpValue(e *Env) {
+	defer e.CheckHeld("C12")
 	sc := e.Sc
 	st := sc.Stages[0]
 	d := catalog[st.Op]
@@ -287,4 +325,37 @@ func c12Violate(e *Env, clause, msg string) {
 		}
 	}
 	e.Violate("C12", clause, msg)
+}
+
+// c12Variant is the script the main source plays from the second subscription on (Ints[vary]: 1 = only the
+// terminal of the original script, 2 = the same script with other values), nil when the scenario does not vary.
+func c12Variant(sc *Scn) []Step {
+	if len(sc.Sources) == 0 {
+		return nil
+	}
+	var out []Step
+	switch sc.Int("vary", 0) {
+	case 1:
+		for _, st := range sc.Sources[0].Script {
+			if st.K != "N" {
+				out = append(out, st)
+			}
+		}
+		if out == nil {
+			out = []Step{}
+		}
+	case 2:
+		for _, st := range sc.Sources[0].Script {
+			if st.K == "N" {
+				st.V += 3
+			}
+			out = append(out, st)
+		}
+		if out == nil {
+			out = []Step{}
+		}
+	default:
+		return nil
+	}
+	return out
 }
